@@ -1,7 +1,7 @@
 //@file src/append/rolling_file/policy/compound/trigger/time.rs
 //@harness c20_interval_u64 strength=complete bound="every u64 given as an integer scalar (full domain), loop-free" timeout=600 body=body_u64
 //@harness c20_interval_i64 strength=complete bound="every i64 given as an integer scalar (full domain), loop-free" timeout=600 body=body_i64
-//@harness c20_interval_units unwind=14 strength=bounded bound="<1-2 digits><0-1 space><one of the 14 unit names, each letter in either case><optional extra character from {s, S, x, space}>" timeout=1800 body=body_units
+//@harness c20_interval_units unwind=14 strength=bounded bound="<1-2 digits><0-1 space><one of the 14 unit names, each letter in either case><optional extra character from {s, S, x, space}>" timeout=3000 body=body_units
 //@harness c20_interval_ascii4 unwind=7 strength=bounded bound="every ASCII string of <= 4 bytes" timeout=1500 body=body_ascii4
 #[cfg(any(kani, verif_replay))]
 #[allow(dead_code, unused)]
